@@ -58,6 +58,8 @@ Check C09_overfilled_no_rollback : forall (s : orders) (sn : osnap) (m : meta) (
   o_state sn = SA (Open m) -> rem (o_qty sn) m < 0 ->
   Forall (fun o => cid_of o = k_cid (o_key sn) /\ open_report o <> None) ops ->
   exists t', ts (run ops (step s (Snap sn))) (k_cid (o_key sn)) = Some t' /\ m_time m <= t'.
+Check C09_persist_invariant : forall (xs : list xev) (e : engine),
+  fold_left xstep9 xs e = erun9 (evs_of xs) e.
 Check C09_oracle_sound : forall c : case, corr_b c = true -> prop_b c = true.
 
 (* the definitions the statements rest on, pinned by evaluation *)
